@@ -304,14 +304,105 @@ fn keybytes_for<B: Backend>(out: &mut Vec<SubCheck>) {
     }));
 }
 
+// ---------------------------------------------------------------------------
+// tokens: the payload-encoding suffix is part of the header ("v4" + SUFFIX + ".local."); an
+// authentic token relabelled to the other encoding (or purpose) of the same version must not unseal
+
+#[derive(Clone, Debug, Serialize, Deserialize)]
+struct TokRewriteCase {
+    public: bool,
+    key: u64,
+    msg_len: u16,
+    footer_len: u8,
+    with_assertion: bool,
+}
+
+fn token_rewrite_case<B: Backend>(c: &TokRewriteCase, acc: &mut Acc) -> R {
+    use paseto_core::tokens::{SealedToken, UnsealedToken};
+    use paseto_core::validation::NoValidation;
+    use paseto_core::version::{Local, Public};
+    let name = B::NAME;
+    let v = B::VER.v();
+    let ks = KeySeed::from_u64(c.key % 8);
+    crate::rng::reseed_case(hash_of(&(c.key, c.msg_len, c.footer_len)));
+    let msg = crate::rng::det_bytes(c.key, 0xc10, c.msg_len as usize);
+    let footer = vec![0x66u8; c.footer_len as usize];
+    let aad: &[u8] = if c.with_assertion && B::VER.has_assertion() { b"assertion" } else { b"" };
+    let purpose = if c.public { "public" } else { "local" };
+    // (sealed under the plain encoding, sealed under the suffixed encoding)
+    let (plain, suffixed): (String, String) = if c.public {
+        let sk = secret_key::<B>(&ks);
+        (
+            UnsealedToken::<V<B>, Public, Raw>::new(Raw(msg.clone())).with_footer(footer.clone()).seal(&sk, aad).map(|t| t.to_string()).unwrap_or_else(|e| library_refused("signing a token", &e)),
+            UnsealedToken::<V<B>, Public, RawS>::new(RawS(msg.clone())).with_footer(footer.clone()).seal(&sk, aad).map(|t| t.to_string()).unwrap_or_else(|e| library_refused("signing a token with a suffixed payload encoding", &e)),
+        )
+    } else {
+        let k = local_key::<B>(&ks);
+        (
+            UnsealedToken::<V<B>, Local, Raw>::new(Raw(msg.clone())).with_footer(footer.clone()).seal(&k, aad).map(|t| t.to_string()).unwrap_or_else(|e| library_refused("encrypting a token", &e)),
+            UnsealedToken::<V<B>, Local, RawS>::new(RawS(msg.clone())).with_footer(footer.clone()).seal(&k, aad).map(|t| t.to_string()).unwrap_or_else(|e| library_refused("encrypting a token with a suffixed payload encoding", &e)),
+        )
+    };
+    let h_plain = format!("{v}.{purpose}.");
+    let h_suff = format!("{v}.x1.{purpose}.");
+    let unseal_plain = |text: &str| -> bool {
+        if c.public {
+            text.parse::<SealedToken<V<B>, Public, Raw, Vec<u8>>>().and_then(|t| t.unseal(&secret_key::<B>(&ks).public_key(), aad, &NoValidation::dangerous_no_validation())).is_ok()
+        } else {
+            text.parse::<SealedToken<V<B>, Local, Raw, Vec<u8>>>().and_then(|t| t.unseal(&local_key::<B>(&ks), aad, &NoValidation::dangerous_no_validation())).is_ok()
+        }
+    };
+    let unseal_suff = |text: &str| -> bool {
+        if c.public {
+            text.parse::<SealedToken<V<B>, Public, RawS, Vec<u8>>>().and_then(|t| t.unseal(&secret_key::<B>(&ks).public_key(), aad, &NoValidation::dangerous_no_validation())).is_ok()
+        } else {
+            text.parse::<SealedToken<V<B>, Local, RawS, Vec<u8>>>().and_then(|t| t.unseal(&local_key::<B>(&ks), aad, &NoValidation::dangerous_no_validation())).is_ok()
+        }
+    };
+    crate::ensure!(unseal_plain(&plain) && unseal_suff(&suffixed), format!("C10/{name}/token.{purpose}/encoding-rewrite/control-rejected"), "an authentic token does not unseal under its own header");
+    let body_plain = plain.strip_prefix(&h_plain).unwrap_or("");
+    let body_suff = suffixed.strip_prefix(&h_suff).unwrap_or("");
+    crate::ensure!(
+        !unseal_suff(&format!("{h_suff}{body_plain}")),
+        format!("C10/{name}/token.{purpose}/encoding-rewrite/plain-accepted-as-suffixed"),
+        "a {h_plain} token whose header was rewritten to {h_suff} unsealed"
+    );
+    crate::ensure!(
+        !unseal_plain(&format!("{h_plain}{body_suff}")),
+        format!("C10/{name}/token.{purpose}/encoding-rewrite/suffixed-accepted-as-plain"),
+        "a {h_suff} token whose header was rewritten to {h_plain} unsealed"
+    );
+    acc.evals_n(4);
+    acc.nt(hash_of(&(name, c.public, c.msg_len, c.footer_len, c.with_assertion)));
+    acc.class("token:encoding-suffix-rewritten");
+    Ok(())
+}
+
+fn token_rewrite_for<B: Backend>(out: &mut Vec<SubCheck>) {
+    use proptest::prelude::*;
+    let cases = match B::NAME {
+        "paseto-v1" => (10, 120),
+        "paseto-v3" => (30, 400),
+        _ => (80, 1500),
+    };
+    out.push(SubCheck::prop(
+        format!("c10.token-encoding-rewrite/{}", B::NAME),
+        3,
+        cases,
+        |_t| (any::<bool>(), any::<u64>(), prop_oneof![Just(0u16), 1u16..300], prop_oneof![Just(0u8), 1u8..40], any::<bool>()).prop_map(|(public, key, msg_len, footer_len, with_assertion)| TokRewriteCase { public, key, msg_len, footer_len, with_assertion }),
+        |c: &TokRewriteCase, acc: &mut Acc| token_rewrite_case::<B>(c, acc),
+    ));
+}
+
 pub fn def() -> PropertyDef {
     let mut subs = vec![SubCheck::custom("c10.matrix", 5, matrix, replay_pair)];
     crate::for_backends!(B => rewrite_for::<B>(&mut subs));
     crate::for_backends!(B => keybytes_for::<B>(&mut subs));
+    crate::for_backends!(B => token_rewrite_for::<B>(&mut subs));
     PropertyDef {
         id: "C10",
         level: "exploration",
-        rule: "(1) the full ordered-pair matrix: every library-produced valid string of every kind (tokens local/public, keys, ids, PIE, PBKW, sealed keys) of every back end is offered to every (back end, kind) parser - 6 x 18 parsers incl. typed keys and PKE key kinds; expectation from the header table of the specification: accept iff same version and same kind (sibling back ends are the same version and must accept; RSA-2048 vs RSA-4096 v1 key kinds must refuse each other); (1b) the body of every such string under the header of every kind with a fixed body length (ids, typed keys) must be rejected when the lengths differ; (2) header rewriting of authenticated PIE / PBKW / sealed blobs to the other key kind and to every other version, unwrapped with the same secret bytes: must fail. (3) key bytes: the serialised keys of every kind of every back end, key ids, a 32-byte key followed by further bytes, and every length 0..=128 are offered to each of the five key decoders of every back end: anything whose length is not exactly that of the requested kind must be rejected. Non-trivial iff the pair differs in exactly one of version / kind (near miss) or must be accepted",
+        rule: "(1) the full ordered-pair matrix: every library-produced valid string of every kind (tokens local/public, keys, ids, PIE, PBKW, sealed keys) of every back end is offered to every (back end, kind) parser - 6 x 18 parsers incl. typed keys and PKE key kinds; expectation from the header table of the specification: accept iff same version and same kind (sibling back ends are the same version and must accept; RSA-2048 vs RSA-4096 v1 key kinds must refuse each other); (1b) the body of every such string under the header of every kind with a fixed body length (ids, typed keys) must be rejected when the lengths differ; (2) header rewriting of authenticated PIE / PBKW / sealed blobs to the other key kind and to every other version, unwrapped with the same secret bytes: must fail; (2b) authentic local and public tokens of every back end under two payload encodings (SUFFIX \"\" and \".x1\"), header rewritten to the other encoding, unsealed with the right key: must fail. (3) key bytes: the serialised keys of every kind of every back end, key ids, a 32-byte key followed by further bytes, and every length 0..=128 are offered to each of the five key decoders of every back end: anything whose length is not exactly that of the requested kind must be rejected. Non-trivial iff the pair differs in exactly one of version / kind (near miss) or must be accepted",
         assumptions: vec!["the matrix is enumerated completely for the sampled source strings (5 per kind and back end quick, 50 thorough)"],
         subs,
     }
